@@ -138,6 +138,13 @@ package formula
 //@ spec litValue(t string, p int) string := strip(t, p, fragEnd(t, p)) ++ fracPart(t, fragEnd(t, p)) ++ expPart(t, dotEnd(t, fragEnd(t, p)))
 //@ spec litTextEnd(t string, p int) int := expOK(t, dotEnd(t, fragEnd(t, p))) ? expEnd(t, dotEnd(t, fragEnd(t, p))) : dotEnd(t, fragEnd(t, p))
 
+// numStart: a token that starts here is a decimal literal (a digit that does not begin a 0x
+// prefix, or a '.' followed by a digit). litBad: an exponent without digits or a misplaced
+// separator in the integer part.
+//@ spec hexPrefix(t string, p int) bool := t[p] == '0' && p + 2 < len(t) && (t[p+1] == 'x' || t[p+1] == 'X')
+//@ spec numStart(t string, p int) bool := (isDigitCh(t[p]) && !hexPrefix(t, p)) || (t[p] == '.' && p + 1 < len(t) && isDigitCh(t[p+1]))
+//@ spec litBad(t string, p int) bool := (hasExp(t, dotEnd(t, fragEnd(t, p))) && !expOK(t, dotEnd(t, fragEnd(t, p)))) || sepErr(t, p, fragEnd(t, p))
+
 //@ func (*Scanner).scanNumber
 //@   tags [C14,C01,C12]
 //@   requires scanFrame(s) && !sepFlag(s)
@@ -178,6 +185,14 @@ package formula
 //@   ensures[C12] !(s.pos < s.end && idStartU(cur(s))) ==> nd(s) == old(nd(s))
 
 
+// Hex escapes (C13). hexRun(t, a, k): the position after at most k hexadecimal digits from a;
+// hv(t, a, e): the number the digits t[a:e] spell (by peeling the last digit).
+//@ spec isHexCh(c int) bool := (c >= '0' && c <= '9') || (c >= 'a' && c <= 'f') || (c >= 'A' && c <= 'F')
+//@ spec rec hexRun(t string, a int, k int) int := (k <= 0 || a < 0 || a >= len(t) || !isHexCh(t[a])) ? a : hexRun(t, a + 1, k - 1)
+//@ spec rec hv(t string, a int, e int) int := e <= a ? 0 : 16 * hv(t, a, e - 1) + hexDV(t[e-1])
+// the text a hex escape with up to n digits at a stands for: the code point's UTF-8 encoding
+//@ spec hexOut(t string, a int, n int) string := hexRun(t, a, n) > a ? utf8enc(hv(t, a, hexRun(t, a, n))) : ""
+
 //@ func (*Scanner).scanHexDigits
 //@   tags [C14,C01,C13]
 //@   requires scanFrame(s)
@@ -186,7 +201,9 @@ package formula
 //@   ensures scanFrame(s) && s.pos >= old(s.pos) && nd(s) >= old(nd(s))
 //@   ensures old(s.pos) < s.end && old(cur(s)) == 92 ==> result == "" && s.pos == old(s.pos) && s.tokenFlags == old(s.tokenFlags)
 //@   ensures allHexLower(result) && (scanAsManyAsPossible || len(result) <= max(count, 0))
+//@   ensures[C13] !canHaveSeparators && !scanAsManyAsPossible ==> s.pos == hexRun(s.text, old(s.pos), count) && len(result) == s.pos - old(s.pos) && hexValS(result) == hv(s.text, old(s.pos), s.pos) && nd(s) == old(nd(s))
 //@   loop 1: invariant scanFrame(s) && s.pos >= old(s.pos) && 0 <= underlineStart && underlineStart <= s.pos && nd(s) >= old(nd(s))
+//@           invariant[C13] !canHaveSeparators && !scanAsManyAsPossible ==> hexRun(s.text, s.pos, count - len(valueChars)) == hexRun(s.text, old(s.pos), count) && len(valueChars) == s.pos - old(s.pos) && hexValS(valueChars) == hv(s.text, old(s.pos), s.pos) && nd(s) == old(nd(s)) && !isPreviousTokenSeparator
 //@           invariant old(s.pos) < s.end && old(cur(s)) == 92 ==> len(valueChars) == 0 && s.pos == old(s.pos) && !isPreviousTokenSeparator && s.tokenFlags == old(s.tokenFlags)
 //@           invariant allHexLower(valueChars) && (scanAsManyAsPossible || len(valueChars) <= max(count, 0))
 //@           decreases s.end - s.pos
@@ -198,13 +215,31 @@ package formula
 //@   panics never
 //@   ensures scanFrame(s) && s.pos >= old(s.pos) && nd(s) >= old(nd(s))
 //@   ensures old(s.pos) < s.end && old(cur(s)) == 92 ==> result == -1 && s.pos == old(s.pos) && s.tokenFlags == old(s.tokenFlags)
+//@   ensures[C13] !canHaveSeparators ==> s.pos == hexRun(s.text, old(s.pos), count) && nd(s) == old(nd(s)) && result == (s.pos > old(s.pos) ? hv(s.text, old(s.pos), s.pos) : -1) && (s.pos > old(s.pos) ==> result >= 0) && s.pos - old(s.pos) <= max(count, 0)
+//@   ensures[C13] !canHaveSeparators && count <= 4 ==> result < 65536
 
 //@ func (*Scanner).scanHexadecimalEscape
 //@   tags [C14,C01,C13]
-//@   requires scanFrame(s) && numDigits <= 15
+//@   requires scanFrame(s) && numDigits <= 4
 //@   assigns s.pos, s.tokenFlags, owner(s).parseDiagnostics
 //@   panics never
 //@   ensures scanFrame(s) && s.pos >= old(s.pos) && nd(s) >= old(nd(s))
+//@   ensures[C13] s.pos == hexRun(s.text, old(s.pos), numDigits) && result == hexOut(s.text, old(s.pos), numDigits)
+//@   ensures[C13] s.pos == old(s.pos) ==> errd(s)
+//@   ensures[C13] s.pos > old(s.pos) ==> nd(s) == old(nd(s))
+
+// String literals (C13), written from the statement. At a backslash at p, escNext is where the
+// escape ends and escOut the text it stands for: \0 \b \t \n \v \f \r \' \" and \\ (any other
+// character stands for itself), \xHH and \uHHHH the code point's UTF-8 encoding. A backslash
+// followed by a line break (a line continuation) is outside the statement: contNext/contOut
+// only name what the code does there.
+//@ spec isLB(c int) bool := c == 10 || c == 13 || c == 8232 || c == 8233 || c == 133
+//@ spec isCont(c int) bool := c == 10 || c == 13 || c == 8232 || c == 8233
+//@ spec c1(t string, p int) int := urune(t[p+1:])
+//@ spec contNext(t string, p int) int
+//@ spec contOut(t string, p int) string
+//@ spec escNext(t string, p int) int := p + 1 >= len(t) ? p + 1 : (c1(t, p) == 'u' ? hexRun(t, p + 2, 4) : (c1(t, p) == 'x' ? hexRun(t, p + 2, 2) : (isCont(c1(t, p)) ? contNext(t, p) : p + 1 + usize(t[p+1:]))))
+//@ spec escOut(t string, p int) string := p + 1 >= len(t) ? "" : (c1(t, p) == '0' ? unit(0) : (c1(t, p) == 'b' ? unit(8) : (c1(t, p) == 't' ? unit(9) : (c1(t, p) == 'n' ? unit(10) : (c1(t, p) == 'v' ? unit(11) : (c1(t, p) == 'f' ? unit(12) : (c1(t, p) == 'r' ? unit(13) : (c1(t, p) == 'u' ? hexOut(t, p + 2, 4) : (c1(t, p) == 'x' ? hexOut(t, p + 2, 2) : (isCont(c1(t, p)) ? contOut(t, p) : utf8enc(c1(t, p))))))))))))
 
 //@ func (*Scanner).scanEscapeSequence
 //@   tags [C14,C01,C13]
@@ -212,6 +247,18 @@ package formula
 //@   assigns s.pos, s.tokenFlags, owner(s).parseDiagnostics
 //@   panics never
 //@   ensures scanFrame(s) && s.pos > old(s.pos) && nd(s) >= old(nd(s))
+//@   ensures[C13] old(s.pos) + 1 >= s.end || !isCont(c1(s.text, old(s.pos))) ==> s.pos == escNext(s.text, old(s.pos)) && result == escOut(s.text, old(s.pos))
+//@   defines old(s.pos) + 1 < s.end && isCont(c1(s.text, old(s.pos))) ==> s.pos == contNext(s.text, old(s.pos)) && result == contOut(s.text, old(s.pos))
+
+// strV(t, a, p, q): the text the rest of a literal stands for, where the bytes t[a:p] are plain
+// characters already passed, from p up to the closing quote q, a line break or the end of the
+// text (so strV(t, b, b, q) is what the body starting at b stands for: plain bytes verbatim,
+// escapes by the table). strG: the literal is closed by its quote. Both recurse forwards, so
+// the loop invariant is "what is collected so far followed by what the rest stands for is what
+// the whole body stands for".
+//@ spec rec strV(t string, a int, p int, q int) string := (p < 0 || p >= len(t)) ? t[a:p] : (urune(t[p:]) == q ? t[a:p] : (urune(t[p:]) == 92 ? (escNext(t, p) > p ? t[a:p] ++ escOut(t, p) ++ strV(t, escNext(t, p), escNext(t, p), q) : t[a:p]) : (isLB(urune(t[p:])) ? t[a:p] : strV(t, a, p + usize(t[p:]), q))))
+//@ spec rec strG(t string, p int, q int) bool := (p < 0 || p >= len(t)) ? false : (urune(t[p:]) == q ? true : (urune(t[p:]) == 92 ? (escNext(t, p) > p && strG(t, escNext(t, p), q)) : (isLB(urune(t[p:])) ? false : strG(t, p + usize(t[p:]), q))))
+//@ spec bodyAt(s *Scanner) int := s.pos + usize(s.text[s.pos:])
 
 //@ func (*Scanner).scanString
 //@   tags [C14,C01,C13]
@@ -219,7 +266,11 @@ package formula
 //@   assigns s.pos, s.tokenFlags, owner(s).parseDiagnostics
 //@   panics never
 //@   ensures scanFrame(s) && s.pos > old(s.pos) && nd(s) >= old(nd(s))
-//@   loop 1: invariant scanFrame(s) && old(s.pos) < start && start <= s.pos && nd(s) >= old(nd(s))
+//@   ensures[C13] result == strV(s.text, old(bodyAt(s)), old(bodyAt(s)), old(cur(s)))
+//@   ensures[C13] !strG(s.text, old(bodyAt(s)), old(cur(s))) ==> errd(s)
+//@   loop 1: invariant scanFrame(s) && old(s.pos) < start && start <= s.pos && nd(s) >= old(nd(s)) && quote == old(cur(s))
+//@           invariant[C13] contents.contents ++ strV(s.text, start, s.pos, quote) == strV(s.text, old(bodyAt(s)), old(bodyAt(s)), quote)
+//@           invariant[C13] strG(s.text, s.pos, quote) == strG(s.text, old(bodyAt(s)), quote)
 //@           decreases s.end - s.pos
 
 //@ func (*Scanner).peekUnicodeEscape
@@ -249,10 +300,15 @@ package formula
 //@   ensures s.token != SK_EndOfFile ==> s.pos > s.tokenPos
 //@   ensures s.token == SK_EndOfFile ==> s.pos == s.end
 //@   ensures[C01,C14] isIdTok(s.token) ==> len(s.tokenValue) > 0
+//@   ensures[C13] s.tokenPos < s.end && (s.text[s.tokenPos] == 34 || s.text[s.tokenPos] == 39) ==> s.token == SK_StringLiteral && s.tokenValue == strV(s.text, s.tokenPos + 1, s.tokenPos + 1, s.text[s.tokenPos]) && (!strG(s.text, s.tokenPos + 1, s.text[s.tokenPos]) ==> errd(s))
+//@   ensures[C12] s.tokenPos < s.end && numStart(s.text, s.tokenPos) ==> s.token == SK_NumberLiteral && s.pos == litEnd(s.text, s.tokenPos)
+//@   ensures[C12] s.tokenPos < s.end && numStart(s.text, s.tokenPos) ==> (sepFlag(s) ? s.tokenValue == litValue(s.text, s.tokenPos) : s.tokenValue == s.text[s.tokenPos:litTextEnd(s.text, s.tokenPos)])
+//@   ensures[C12] s.tokenPos < s.end && numStart(s.text, s.tokenPos) && (litBad(s.text, s.tokenPos) || (s.pos < s.end && idStartU(cur(s)))) ==> errd(s)
 //@   loop 1: invariant sbase(s) && cbok(s) && s.startPos == old(s.pos) && s.startPos <= s.pos && nd(s) >= old(nd(s)) && !sepFlag(s)
 //@           decreases s.end - s.pos
 //@   loop 2: invariant scanFrame(s) && s.startPos == old(s.pos) && nd(s) >= old(nd(s)) && s.tokenPos < s.pos
 //@           invariant tar@L2 == -1 || (s.pos <= tar@L2 && tar@L2 <= s.end)
+//@           invariant[C12,C13] s.tokenPos < s.end && s.text[s.tokenPos] != 34 && s.text[s.tokenPos] != 39 && !numStart(s.text, s.tokenPos)
 //@           decreases tar@L2 >= 0 ? s.end - tar@L2 + 1 : 0
 
 //@ spec kw(text string) int := text == "true" ? SK_TrueKeyword : text == "false" ? SK_FalseKeyword : text == "null" ? SK_NullKeyword : text == "this" ? SK_ThisKeyword : text == "ctx" ? SK_CtxKeyword : text == "typeof" ? SK_TypeofKeyword : SK_Unknown
@@ -456,7 +512,7 @@ package formula
 //@   ensures[C01,C02] !isIdentifier ==> ndp(p) > 0 && sameScan(p) && result.pos == spos(p) && result.end == spos(p)
 
 //@ func (*Parser).parseLiteralExpressionRest
-//@   tags [C01,C15]
+//@   tags [C01,C15,C12,C13]
 //@   requires pinv(p)
 //@   assigns parserState(p)
 //@   panics never
